@@ -319,4 +319,41 @@ theorem drain_all (c : Cfg) (hr : c.recoverTask = true) :
     · simp [drain, hf, h1]
     · simp [h3]
 
+/-- a label sequence that runs is a path of `Reachable` -/
+theorem reachable_of_run (c : Cfg) : ∀ (ls : List Label) (s s' : St), Reachable c s → run c s ls = some s' → Reachable c s'
+  | [], s, s', hr, h => by simp [run] at h; exact h ▸ hr
+  | l :: t, s, s', hr, h => by
+    simp only [run] at h
+    split at h
+    · cases h
+    · rename_i s1 hf
+      exact reachable_of_run c t s1 s' (.step l hr hf) h
+
+/-- only the consumer's step appends to the execution log -/
+theorem log_only_by_consume (c : Cfg) (s s' : St) (l : Label) (hf : fire c s l = some s') :
+    s'.log = s.log ∨ (∃ x rest, l = .consume ∧ s.chan = x :: rest ∧ s'.log = s.log ++ [x] ∧ s'.chan = rest) := by
+  cases l <;> simp only [fire] at hf
+  · split at hf
+    · cases hf
+    · split at hf <;> cases hf <;> exact Or.inl rfl
+  · split at hf
+    · cases hf
+    · split at hf
+      · cases hf; exact Or.inl rfl
+      · split at hf <;> cases hf; exact Or.inl rfl
+  · split at hf
+    · cases hf
+    · split at hf
+      · cases hf; exact Or.inl rfl
+      · split at hf <;> cases hf; exact Or.inl rfl
+  · split at hf
+    · cases hf
+    · split at hf
+      · cases hf
+      · rename_i x rest hc
+        cases hf
+        exact Or.inr ⟨x, rest, rfl, hc, rfl, rfl⟩
+  · split at hf <;> cases hf; exact Or.inl rfl
+  · split at hf <;> cases hf; exact Or.inl rfl
+
 end Cell2v.Sche
